@@ -38,7 +38,7 @@ fn gen_seq(rng: &mut Rng) -> Case {
     match style {
       0 => seq.push(rng.below(nh)),
       1 => { cur = (cur + 1 + (rng.below(8) == 0) as u64 * rng.below(20)) % nh; seq.push(cur); }
-      2 => { cur = (cur + nh - 1 - (rng.below(8) == 0) as u64 * rng.below(20)) % nh; seq.push(cur); }
+      2 => { cur = (cur + 2 * nh - 1 - (rng.below(8) == 0) as u64 * rng.below(nh.min(20))) % nh; seq.push(cur); }
       3 => { seq.push(rng.below(nh.min(64))); }
       4 => { if rng.below(10) == 0 { cur = rng.below(nh) & !15; } else { cur = (cur + 1) % nh; } seq.push(cur); if rng.below(4) == 0 { seq.push(cur); } }
       _ => { if rng.below(12) == 0 { cur = (rng.below(nh) & !63) + rng.below(3); } else { cur = (cur + 1) % nh; } seq.push(cur); }
